@@ -9,3 +9,10 @@ Fixpoint failing (i : N) (l : list bool) : list N :=
   | [] => []
   | b :: l' => if b then failing (i + 1) l' else i :: failing (i + 1) l'
   end.
+
+(** (index, code) of the non-zero entries *)
+Fixpoint nonzero_codes (i : N) (l : list N) : list (N * N) :=
+  match l with
+  | [] => []
+  | c :: l' => if c =? 0 then nonzero_codes (i + 1) l' else (i, c) :: nonzero_codes (i + 1) l'
+  end.
